@@ -176,18 +176,21 @@ def main(tier, seed):
                         enc.done(); break
                 if (a == 'sat') != feas:
                     key = 'delivered-model-admits-an-infeasible-point' if a == 'sat' else 'delivered-model-excludes-a-feasible-point'
-                    # attribution: bounds of a complementarity variable narrowed by the converter (the condition is then read with other bounds)?
-                    # only if re-reading the delivered complementarity rows with the NL bounds makes the delivered model agree with the NL model
-                    nb = {j: (m.vars[j]['lb'], m.vars[j]['ub']) for j, _ in m.compl.values()
+                    # attribution: bounds of a complementarity variable narrowed by the converter (the condition is then read with other bounds,
+                    # natively or in the linearisation, which uses the current bounds as well)?  Only if the NL model with its complementarity
+                    # conditions read with the *delivered* bounds of those variables agrees with the delivered model at this point
+                    nb = {j: (flat_eval.fr(tr.lb[j]), flat_eval.fr(tr.ub[j])) for j, _ in m.compl.values()
                           if flat_eval.num(tr.lb[j]) != float(m.vars[j]['lb']) or flat_eval.num(tr.ub[j]) != float(m.vars[j]['ub'])}
-                    if nb and any(c['type'].startswith('Complementarity') for c in tr.cons):
-                        try:
-                            enc2 = flat_z3.Enc(tr, compl_bounds=nb)
-                            enc2.at(p); a2 = enc2.check(); enc2.done()
-                            if a2 != 'unknown' and (a2 == 'sat') == feas:
-                                key = 'complementarity-variable-bounds-narrowed:' + key
-                        except flat_z3.Unsupported:
-                            pass
+                    if nb:
+                        ev0 = m.evaluate(p)
+                        v2 = [t for t in ev0['violated'] if t[0] != 'compl' and not (nosos and t[0] in ('sos1', 'sos2'))]
+                        for ci, (cj, fl) in m.compl.items():
+                            lo2, hi2 = nb.get(cj, (m.vars[cj]['lb'], m.vars[cj]['ub']))
+                            lo2 = -math.inf if isinstance(lo2, float) and lo2 < 0 else lo2; hi2 = math.inf if isinstance(hi2, float) and hi2 > 0 else hi2
+                            if not gen_nl.compl_ok(ev0['bodies'][ci], p[cj], lo2, hi2, fl):
+                                v2.append(('compl', ci))
+                        if (not v2) == (a == 'sat'):
+                            key = 'complementarity-variable-bounds-narrowed:' + key
                     viol = [] if feas else [t[0] for t in m.evaluate(p)['violated'] if not (nosos and t[0] in ('sos1', 'sos2'))][:3]
                     res.append((key, 'x=%s: NL model %s%s, delivered model %s (config %s %s, delivered types %s)' % ([str(t) for t in p], 'feasible' if feas else 'infeasible', (' ' + str(viol)) if viol else '', a, CFGNAMES[which], opts, info['types'])))
                     enc.done(); break
